@@ -1,6 +1,7 @@
 ------------------------------- MODULE MC_Chain -------------------------------
 (* Instances of RuxChain.                                                                                     *)
 (*  Mode "all"     : every chain of <= MaxN handlers over the script library Scripts (exhaustive, small n)    *)
+(*  Mode "alltail" : every chain of <= MaxN - 1 handlers over Scripts followed by the script Base (a built-in handler)  *)
 (*  Mode "uniform" : chains of n copies of one script, MinN <= n <= MaxN (real int8 / sentinel constants)      *)
 (*  Mode "odd"     : n-1 copies of script Base with one handler of another script at every position           *)
 (*  Mode "oddhead" : the same with the odd handler at positions 1..3 only (chains beyond the sentinel: an abort *)
@@ -42,6 +43,7 @@ Lib == [ R  |-> << <<"in">>, <<"out">> >>,
 
 Chains ==
   CASE Mode = "all"     -> UNION { { [i \in 1..n |-> Lib[f[i]]] : f \in [1..n -> Scripts] } : n \in MinN..MaxN }
+    [] Mode = "alltail" -> UNION { { [i \in 1..n |-> IF i = n THEN Lib[Base] ELSE Lib[f[i]]] : f \in [1..(n - 1) -> Scripts] } : n \in MinN..MaxN }
     [] Mode = "uniform" -> { [i \in 1..n |-> Lib[b]] : n \in MinN..MaxN, b \in Scripts }
     [] Mode = "oddhead" -> UNION { { [i \in 1..n |-> IF i = p THEN Lib[b] ELSE Lib[Base]] : p \in 1..3, b \in Scripts } : n \in MinN..MaxN }
     [] Mode = "odd"     -> UNION { { [i \in 1..n |-> IF i = p THEN Lib[b] ELSE Lib[Base]] : p \in 1..n, b \in Scripts } : n \in MinN..MaxN }
